@@ -217,7 +217,20 @@ func (e *Engine) globalVar(st *State, o *types.Var) Value {
 	}
 	save := st.pc
 	st.pc = tTrue
+	e.permDecl++
+	nf := len(e.facts)
+	saveAlloc := st.alloc
+	if e.alloc0.s != "" {
+		st.alloc = e.alloc0 // package-level objects exist before the function is entered
+	}
 	v := e.symbolic(st, "g_"+o.Pkg().Name()+"."+o.Name(), o.Type())
+	st.alloc = saveAlloc
+	e.permDecl--
+	// facts about the global symbol are permanent too
+	for _, f := range e.facts[nf:] {
+		e.gfacts = append(e.gfacts, f)
+	}
+	e.facts = e.facts[:nf]
 	st.pc = save
 	if iv, ok := v.(IfaceV); ok && isErrorType(o.Type()) {
 		// sentinel errors are non-nil and pairwise distinct
